@@ -450,7 +450,8 @@ fn check_program(doc: &str, rules: &str, evals: &mut u64, with_root: bool) -> Re
 
 fn random_case(u: &mut Choices, sz: Size) -> CaseResult {
     let doc = gen_cfn_doc(u, &sz);
-    let file = gen_wide_file(u, &doc, sz, false);
+    let with_messages = u.chance(1, 2);
+    let file = gen_wide_file(u, &doc, sz, with_messages);
     let doc_text = doc.to_json();
     let text = print_file(&file);
     let mut evals = 0;
